@@ -4,6 +4,7 @@
 package main
 
 import (
+	"github.com/bokysan/socketace/v2/internal/socketace"
 	"fmt"
 	"io"
 	"net"
@@ -66,6 +67,40 @@ type e2e struct {
 	ups     *upstream.Upstreams
 	lst     *listener.SocketListener
 	srvAddr string // where the physical connection goes (for relays)
+	// a channel whose target is one end of a synchronous pipe (nothing is buffered beyond the multiplexer), reached through its own listener
+	stallAddr  string
+	stallConns chan net.Conn
+	// a listener for a channel the server does not offer
+	nochanAddr string
+	extra      []*listener.SocketListener
+}
+
+// stallChannel hands the far end of a zero-buffer pipe to the scenario: whatever the target does not read stays in the tunnel
+type stallChannel struct{ conns chan net.Conn }
+
+func (c *stallChannel) String() string { return "stall" }
+func (c *stallChannel) Name() string   { return "stall" }
+func (c *stallChannel) OpenConnection() (net.Conn, error) {
+	a, b := net.Pipe()
+	c.conns <- b
+	return a, nil
+}
+
+// addListener starts one more socket listener (same upstreams) for the named channel
+func (w *e2e) addListener(name string, cfg cert.TlsConfig, fwd string) (string, error) {
+	lp := freePort()
+	l := &listener.SocketListener{}
+	l.Name = name
+	l.Address = addr.MustParseAddress(fmt.Sprintf("tcp://127.0.0.1:%d", lp))
+	if fwd != "" {
+		f := addr.MustParseAddress("tcp://" + fwd)
+		l.Forward = &f
+	}
+	if err := l.Start(w.ups, cfgGetter{cfg}); err != nil {
+		return "", err
+	}
+	w.stops = append(w.stops, func() { l.Shutdown() })
+	return fmt.Sprintf("127.0.0.1:%d", lp), nil
 }
 
 func (w *e2e) close() {
@@ -91,6 +126,8 @@ func newE2E(carrier string, relay func(target string) string) (*e2e, error) {
 	w := &e2e{carrier: carrier, target: newTarget()}
 	w.stops = append(w.stops, func() { w.target.ln.Close() })
 	chans := channelsFor(map[string]string{"svc": w.target.ln.Addr().String(), "svc2": w.target.ln.Addr().String()})
+	w.stallConns = make(chan net.Conn, 64)
+	chans = append(chans, &stallChannel{conns: w.stallConns})
 	var url string
 	var ccfg cert.TlsConfig = clientCfg("none", false, true)
 	scert := "none"
@@ -172,6 +209,10 @@ func newE2E(carrier string, relay func(target string) string) (*e2e, error) {
 		if relay != nil && strings.HasPrefix(url, "tcp://") {
 			hp := strings.Replace(strings.TrimPrefix(url, "tcp://"), "localhost", "127.0.0.1", 1)
 			url = "tcp://" + relay(hp)
+		} else if relay != nil && (strings.HasPrefix(url, "tcp+tls://") || strings.HasPrefix(url, "udp://")) {
+			// raw access for a peer of the scenario's own making (the URL itself is not rewritten)
+			hp := url[strings.Index(url, "//")+2:]
+			relay(strings.Replace(hp, "localhost", "127.0.0.1", 1))
 		} else if relay != nil && (strings.HasPrefix(url, "ws://") || strings.HasPrefix(url, "wss://")) {
 			// raw access to a websocket endpoint: tell the scenario where it listens (the URL itself is not rewritten)
 			hp := url[strings.Index(url, "//")+2:]
@@ -195,6 +236,13 @@ func newE2E(carrier string, relay func(target string) string) (*e2e, error) {
 	}
 	w.stops = append(w.stops, func() { w.lst.Shutdown() })
 	w.appAddr = fmt.Sprintf("127.0.0.1:%d", lp)
+	var err error
+	if w.stallAddr, err = w.addListener("stall", ccfg, ""); err != nil {
+		return nil, err
+	}
+	if w.nochanAddr, err = w.addListener("no-such-channel", ccfg, ""); err != nil {
+		return nil, err
+	}
 	return w, nil
 }
 
@@ -297,11 +345,34 @@ func init() {
 			sizes = append(sizes, int(a[4+i].I))
 		}
 		dir := a[4+ns].W
+		variant := ""
+		if len(a) > 5+ns {
+			variant = a[5+ns].W
+		}
+		if variant == "debug" {
+			// the copy loops' logging variant (an environment switch read when a connection is piped)
+			os.Setenv("SOCKETACE_PIPE_DEBUG", "1")
+			defer os.Unsetenv("SOCKETACE_PIPE_DEBUG")
+		}
+		if variant == "aged" {
+			socketace.HandshakeTimeout = time.Second
+			defer func() { socketace.HandshakeTimeout = 30 * time.Second }()
+		}
 		w, err := newE2E(carrier, nil)
 		if err != nil {
 			return []Tok{TW("setup"), TW("err")}
 		}
 		defer w.close()
+		if variant == "aged" {
+			// the physical session is older than the handshake's time limit when the connection under test is opened
+			a0, t0, err := w.dialApp(20 * time.Second)
+			if err != nil {
+				return []Tok{TW("connect"), TW("err")}
+			}
+			a0.Close()
+			t0.Close()
+			time.Sleep(socketace.HandshakeTimeout + 400*time.Millisecond)
+		}
 		app, tc, err := w.dialApp(20 * time.Second)
 		if err != nil {
 			return []Tok{TW("connect"), TW("err")}
